@@ -1,7 +1,8 @@
 def main(n: i64): i64 {
-  let u: i64 = (if n == 0 { 10 } else { 20 }) * 7;
-  let v: i64 = (if u < n { 1 } else { 2 }) + u;
-  println_i64((if v == 72 { 3 } else { 4 }) * v);
+  let u: i64 = if n == 0 { 10 } else { 20 };
+  let v: i64 = if u < n { u + 1 } else { u + 2 };
+  let w: i64 = if v == 22 { u } else { v + n };
+  println_i64(((u * 7) + v) + w);
   println_i64(share_main_0(n));
   0
 }
